@@ -146,3 +146,59 @@ Definition render_parses_back (nm : names) (order : list terminal) (ignore : lis
       end
   | _ => false
   end.
+
+(* ---------------------------------------------------------------- quantities: magnitude unit *)
+Record qnames := MkQNames { n_quantity : positive; n_int : positive; n_float : positive; t_int : positive; t_float : positive }.
+
+Inductive magnitude := MInt (z : Z) | MFloat (literal : str).
+
+(* int(text): sign and decimal digits; CPython refuses more than 4300 digits (ValueError, reported as ParseError) *)
+Inductive int_literal := IValue (z : Z) | ITooLong | INotInt.
+Definition int_of (s : str) : int_literal :=
+  let body := match s with 45 :: r | 43 :: r => r | _ => s end in
+  let neg := match s with 45 :: _ => true | _ => false end in
+  if Nat.ltb 4300 (length body) then ITooLong else
+  match body with
+  | [] => INotInt
+  | _ => match dec_value 0 body with Some v => IValue (if neg then - v else v) | None => INotInt end
+  end.
+
+Inductive qtext_outcome :=
+| QOk (m : magnitude) (u : pres)        (* a quantity, or the unit part's KeyError / evaluation error *)
+| QSyntaxError                           (* ParseError: syntax, or a numeral int() refuses *)
+| QShapeError.
+
+Definition magnitude_of (qn : qnames) (t : tree) : option (option magnitude) :=    (* Some None: the numeral is refused *)
+  match t with
+  | TNode k [TTok ty s] =>
+      if Pos.eqb k (n_int qn) && Pos.eqb ty (t_int qn) then
+        match int_of (to_str s) with IValue z => Some (Some (MInt z)) | ITooLong => Some None | INotInt => None end
+      else if Pos.eqb k (n_float qn) && Pos.eqb ty (t_float qn) then Some (Some (MFloat (to_str s)))
+      else None
+  | _ => None
+  end.
+
+(* the magnitude callback runs as soon as the numeral is reduced: before any term of the unit is looked up *)
+Definition reduced_magnitude_refused (qn : qnames) (vals : list tree) : bool :=
+  existsb (fun t => match magnitude_of qn t with Some None => true | _ => false end) vals.
+
+Definition quantity_parse_text (nm : names) (qn : qnames) (tab : symtab) (order : list terminal) (ignore : list positive)
+  (rules : list rule) (infos : list rinfo) (filtered terminals : list positive) (end_sym : positive) (T : table) (s : str) : qtext_outcome :=
+  match parse_text order ignore rules infos filtered terminals end_sym T (to_text s) with
+  | PTree (TNode q [mt; ut]) =>
+      if Pos.eqb q (n_quantity qn) then
+        match magnitude_of qn mt, unit_of nm ut with
+        | Some None, _ => QSyntaxError
+        | Some (Some m), Some (num, den) => QOk m (eval_unit tab num den)
+        | _, _ => QShapeError
+        end
+      else QShapeError
+  | PTree _ => QShapeError
+  | _ =>
+      let vals := parse_failure_stack order ignore rules infos filtered terminals end_sym T (to_text s) in
+      if reduced_magnitude_refused qn vals then QSyntaxError else
+      match first_term_error tab (reduced_terms nm vals) with
+      | Some PKeyError => QOk (MInt 0) PKeyError
+      | _ => QSyntaxError
+      end
+  end.
